@@ -1,60 +1,124 @@
 """
-Stream `decl` (property C01): the decorator / loader path that EXPANDS declared tests.
+Stream family `decl`: the DECLARATION path — decorators (`suite/builder.py`), the class loader (`suite/loader.py`), the
+discovery of injected fixtures and hooks on the suite object (`Suite._load_injected_fixtures`, `helpers/introspection`)
+and the validation of the dependency graph (`resolve_tests_dependencies` through the real `PreparedProject.create`).
 
-A case is a description of suite CLASSES with decorated test methods (`@lcc.test`, `@lcc.disabled`, `@lcc.tags`,
-`@lcc.prop`, `@lcc.link`, `@lcc.hidden`, `@lcc.depends_on`, `@lcc.parametrized` in dict / CSV-string / CSV-tuple form
-with the default, a format-string or a callable naming scheme; nested, disabled and hidden classes).  It is rendered to
-real Python source, `exec`-ed, the classes are loaded by the real `load_suites_from_classes` (→ `load_suite_from_class`,
-`_load_tests`, `_load_parametrized_tests`), dependencies are resolved by the real `resolve_tests_dependencies` and the
-tree is run by the real `run_suites` for nb_threads ∈ {1, 2, 4} × force_disabled ∈ {False, True}.
+A case is a DESCRIPTION of suite classes: decorated test methods (`@lcc.test`, `@lcc.disabled`, `@lcc.tags`, `@lcc.prop`,
+`@lcc.link`, `@lcc.hidden`, one or SEVERAL stacked `@lcc.depends_on` with paths and predicates, `@lcc.parametrized` in dict /
+CSV forms with the default, a format-string or a callable naming scheme), nested / disabled / hidden classes, base and
+mixin classes, `lcc.inject_fixture()` attributes declared in the class body, in a base class or in `__init__`, hooks
+declared in the class or inherited, an optional test filter.  It is rendered to real Python source, `exec`-ed, loaded by
+the real `load_suites_from_classes`, validated by the real `PreparedProject.create` (on the filtered suites when there is a
+filter) and run by the real `run_suites` for nb_threads in {1, 2, 4} x force_disabled in {False, True}.
 
-Observation: the loaded tree (names, descriptions, disabled value, tags, properties, links, rank order, dependency
-paths, parameters, the declaring function), or the exception the loader raised; per run: the report's tests with their
-statuses and the multiset of executed bodies with the arguments they received.
+Observation: the loaded tree (names, descriptions, disabled value, tags, properties, links, rank order, DEPENDENCIES as the
+loader stored them, parameters, fixture arguments, injected attributes, hooks), or the exception the loader raised; the
+verdict of the validation (accepted + resolved dependencies | the ValidationError); per run: the report's tests with their
+statuses and every executed body with the arguments it received and its start / end position in one global sequence.
 
-Oracle (C01's sentences on the observation only, never the model): every test a declaration stands for (one per
-parameter set) is in the report exactly once, at its path, with one terminal status; a test whose declaration or an
-enclosing class is disabled is reported disabled and not executed unless force_disabled; no body runs twice; a body
-receives exactly its own parameter set.  Model side: `drivers/Expand.lean` (`Model/Expand.lean`).
+Oracles (on the description + observation only, never the model):
+  C01 — every test a declaration stands for (one per parameter set) is in the report exactly once with one terminal status;
+        a test declared disabled (or inside a disabled class) is reported disabled and not executed unless force_disabled;
+        no body runs twice; a body receives exactly its own parameter set.
+  C04 — every dependency written in ANY `@lcc.depends_on` decorator of a declaration is a dependency of every test the
+        declaration stands for; a project whose dependencies are cyclic / unknown / not going to be run is rejected, before
+        anything executes; in every run a test starts only after every test it depends on has finished, is executed only if
+        all of them passed or are disabled, and is reported skipped otherwise.
+Model side: `drivers/Expand.lean` (`Model/Expand.lean`, `Model/SuiteObject.lean`, `Model/Deps.lean`).
+
+The description language, the renderer and the model request are shared with `props/_declrun.py`, which declares whole
+run-level projects (harness/run/gen.py) this way and runs them under the recorder.
 """
 import json
 import random
 import shutil
 import tempfile
 import threading
+import time
 
 import common as C
 
 import lemoncheesecake.api as lcc
+import lemoncheesecake.project as LP
 import lemoncheesecake.suite.builder as LB
 from lemoncheesecake.events import AsyncEventManager
-from lemoncheesecake.fixture import FixtureRegistry
+from lemoncheesecake.filter import TestFilter
 from lemoncheesecake.reporting.backend import ReportingBackend, ReportingSession, ReportingSessionBuilderMixin
 from lemoncheesecake.runner import run_suites
 from lemoncheesecake.session import Session
 from lemoncheesecake.suite import load_suites_from_classes
-from lemoncheesecake.suite.core import resolve_tests_dependencies
+from lemoncheesecake.testtree import filter_suites, flatten_tests
 
 STATUSES = ("passed", "failed", "skipped", "disabled")
 THREADS = (1, 2, 4)
+HOOKS = ("setup_suite", "teardown_suite", "setup_test", "teardown_test")
+HOOK_ARGS = {"teardown_suite": [], "setup_test": ["test"], "teardown_test": ["test", "status"]}
 WORDS = ["zeta", "alpha", "mid", "beta", "omega", "kilo", "delta", "yak", "echo", "nu"]
 VALUES = [1, 2, 3, 7, 10, -4, 0, 42, "x", "y", "eu", "us", "gbp", "A1"]
+TAGS = ["slow", "net", "db", "ui"]
 DECL_TRUSTED = [
-    "decl stream: harness/props/_decl.py renders generated class descriptions to Python source, loads them with the real "
-    "load_suites_from_classes and runs them with the real run_suites; hand-written model Model/Expand.lean (decorators + loader.py expansion, "
-    "bridge to the run-level project syntax) evaluated by drivers/Expand.lean; the callable naming schemes are a family of three functions "
-    "written once in Python and once in Lean (drivers/Expand.lean customNaming)",
+    "decl streams: harness/props/_decl.py renders generated class descriptions (decorators incl. stacked depends_on with paths and predicates, "
+    "base / mixin classes, inject_fixture attributes, hooks) to Python source, loads them with the real load_suites_from_classes, validates them "
+    "with the real PreparedProject.create and runs them with the real run_suites; hand-written models Model/Expand.lean (decorators as state "
+    "transformers + loader.py expansion + bridge to the run-level project syntax), Model/SuiteObject.lean (attribute lookup on the suite object) and "
+    "Model/Deps.lean (dependency validation) evaluated by drivers/Expand.lean; the callable naming schemes and the dependency predicates are "
+    "small families written once in Python and once in Lean (drivers/Expand.lean customNaming / predHolds); Python's name mangling and MRO "
+    "linearisation of the generated (tree-shaped) class hierarchies are computed by the harness and cross-checked against vars() / __mro__ of "
+    "the real classes by the table extractor of C03",
 ]
 DECL_RULE = ("decl stream: generated suite classes (nesting <= 3, disabled / hidden classes, disabled(+reason) / hidden / tagged / linked tests, "
-             "depends_on, parametrized in dict / CSV forms with 0..4 sets and default / format / callable naming, name clashes) x nb_threads {1,2,4} x "
-             "force_disabled; non-trivial = loaded, >= 2 tests, >= 1 parametrized declaration, >= 1 body executed")
+             "1..3 stacked depends_on decorators with paths and predicates (backward, forward, cross-suite), parametrized in dict / CSV forms with "
+             "0..4 sets and default / format / callable naming, name clashes) x nb_threads {1,2,4} x force_disabled; non-trivial = loaded, >= 2 "
+             "tests, >= 1 parametrized declaration, >= 1 body executed")
+DEPS_RULE = ("decl.deps stream: the same classes with dense dependency graphs — DAGs with chains / diamonds / forward and cross-suite edges, "
+             "cycles of length 1..4 entered from their own members or from outside tests declared earlier or later, unknown paths, an optional "
+             "test filter leaving dependencies out of the run; failing and slow bodies; non-trivial = loaded, >= 2 tests, >= 1 dependency")
 
 CUSTOM_NAMING = {
     "idx_rev": 'lambda name, description, parameters, nb: ("%s_r%d" % (name, 100 - nb), "%s (r%d)" % (description, 100 - nb))',
     "vals": 'lambda name, description, parameters, nb: (name + "".join("_%s" % v for v in parameters.values()), '
             'description + " with " + ", ".join("%s=%s" % kv for kv in parameters.items()))',
     "const": "lambda name, description, parameters, nb: (name, description)",
+    # the test name IS the value of the first parameter (used by _declrun.py to give every variant a chosen name)
+    "first": 'lambda name, description, parameters, nb: (str(list(parameters.values())[0]), "test %s" % (list(parameters.values())[0],))',
 }
+
+
+# ------------------------------------------------------------------------------------------------
+# dependencies of a declaration: groups (= stacked decorators, in APPLICATION order) of paths and predicates
+# ------------------------------------------------------------------------------------------------
+
+def dep_groups(t):
+    """the `@lcc.depends_on` decorators of a declaration in the order they are APPLIED (bottom-up); each is the list
+    of its arguments: a dotted test path or {"pred": key}"""
+    if "dep_groups" in t:
+        return [g for g in t["dep_groups"]]
+    return [list(t["deps"])] if t.get("deps") else []
+
+
+def flat_deps(t):
+    return [d for g in dep_groups(t) for d in g]
+
+
+def dep_label(d):
+    return d if isinstance(d, str) else "<%s>" % d["pred"]
+
+
+def pred_src(key):
+    """a dependency predicate as the user writes it: `lambda test: ...` (the key rides along as a default argument so
+    that the observer can tell which predicate a loaded callable is)"""
+    kind, _, val = key.partition("=")
+    expr = {"path": "test.path == %r" % val, "name": "test.name == %r" % val, "tag": "%r in test.tags" % val}[kind]
+    return "(lambda test, _k=%r: %s)" % (key, expr)
+
+
+def pred_holds(key, path, name, tags):
+    kind, _, val = key.partition("=")
+    if kind == "path":
+        return ".".join(path) == val
+    if kind == "name":
+        return name == val
+    return val in tags
 
 
 # ------------------------------------------------------------------------------------------------
@@ -62,7 +126,7 @@ CUSTOM_NAMING = {
 # ------------------------------------------------------------------------------------------------
 
 def _md(rng, p=0.3):
-    tags = rng.sample(["slow", "net", "db", "ui"], rng.choice([1, 1, 2])) if rng.random() < p else []
+    tags = rng.sample(TAGS, rng.choice([1, 1, 2])) if rng.random() < p else []
     props = [[k, rng.choice(["high", "low", "p1"])] for k in rng.sample(["prio", "area", "owner"], rng.choice([1, 2]))] \
         if rng.random() < p else []
     links = [[u, rng.choice([None, "ticket", "spec"])] for u in rng.sample(["http://t/1", "http://t/2", "http://s/x"], rng.choice([1, 2]))] \
@@ -78,7 +142,7 @@ def _disabled(rng, p):
 
 
 def _expected_names(decl):
-    """names the expansions of a declaration are EXPECTED to get — only used to choose resolvable depends_on targets
+    """names the expansions of a declaration are EXPECTED to get — only used to choose depends_on targets
     (a wrong guess surfaces as a ValidationError of the real resolver and is classified, never trusted)"""
     base = decl["name"] or decl["attr"]
     if decl["hidden"]:
@@ -108,9 +172,8 @@ def _fmt(segs):
     return "".join(s["lit"] if "lit" in s else "{%s}" % s["field"] for s in segs)
 
 
-def gen_case(rng):
+def gen_case(rng, profile="default"):
     ctr = {"n": 0}
-    targets = []            # dotted paths of tests declared so far in visible places (depends_on candidates)
 
     def ident(prefix):
         ctr["n"] += 1
@@ -157,18 +220,20 @@ def gen_case(rng):
         tags, props, links = _md(rng)
         d = {"attr": attr, "name": ident("n_") if rng.random() < 0.15 else None,
              "desc": "Desc of %s" % attr if rng.random() < 0.7 else None,
-             "disabled": _disabled(rng, 0.30), "empty_reason": False, "tags": tags, "props": props, "links": links,
-             "hidden": rng.random() < 0.05, "deps": [], "param": None, "order": rng.randrange(1 << 16)}
+             "disabled": _disabled(rng, 0.30 if profile == "default" else 0.12), "empty_reason": False, "tags": tags, "props": props, "links": links,
+             "hidden": rng.random() < 0.05, "dep_groups": [], "param": None, "order": rng.randrange(1 << 16),
+             "split_tags": len(tags) > 1 and rng.random() < 0.5, "behav": "pass"}
+        r = rng.random()
+        if r < (0.06 if profile == "default" else 0.18):
+            d["behav"] = "fail"
+        elif r < (0.12 if profile == "default" else 0.30):
+            d["behav"] = "slow"
         if d["disabled"] is True and rng.random() < 0.15:
             d["empty_reason"] = True                         # @lcc.disabled(""): an empty reason is no reason
-        if rng.random() < 0.55:
+        if rng.random() < (0.55 if profile == "default" else 0.35):
             d["param"] = mk_param(attr, d["name"] or attr)
-        if targets and rng.random() < 0.2:
-            d["deps"] = rng.sample(targets, min(len(targets), rng.choice([1, 1, 2])))
-        if visible:
-            for n in _expected_names(d):
-                if "." not in n:
-                    targets.append(".".join(path + [n]))
+            if profile != "default" and len(d["param"]["sets"]) > 2:
+                d["param"]["sets"] = d["param"]["sets"][:2]
         return d
 
     def mk_cls(path, depth, visible):
@@ -178,8 +243,9 @@ def gen_case(rng):
         hidden = depth > 1 and rng.random() < 0.06
         me = path + [name or attr]
         c = {"attr": attr, "name": name, "desc": "Suite %s" % attr if rng.random() < 0.5 else None,
-             "disabled": _disabled(rng, 0.15), "tags": tags, "props": props, "links": links, "hidden": hidden,
-             "rank": None, "subs_first": rng.random() < 0.3, "order": rng.randrange(1 << 16), "tests": [], "subs": []}
+             "disabled": _disabled(rng, 0.15 if profile == "default" else 0.06), "tags": tags, "props": props, "links": links, "hidden": hidden,
+             "rank": None, "subs_first": rng.random() < 0.3, "order": rng.randrange(1 << 16), "tests": [], "subs": [],
+             "split_tags": len(tags) > 1 and rng.random() < 0.5}
         nt = rng.choice([0, 1, 1, 2, 2, 3, 4]) if depth > 1 else rng.choice([1, 2, 2, 3, 4])
         nsub = 0 if depth >= 3 else rng.choice([0, 0, 0, 1, 1, 2])
         if c["subs_first"]:
@@ -201,7 +267,170 @@ def gen_case(rng):
         return c
 
     classes = [mk_cls([], 1, True) for _ in range(rng.choice([1, 1, 2, 2, 3]))]
-    return {"classes": classes}
+    case = {"classes": classes}
+    if profile == "deps" and rng.random() < 0.3:
+        make_twins(rng, case)
+    assign_deps(rng, case, profile)
+    return case
+
+
+def make_twins(rng, case):
+    """tests with the SAME NAME in different suites (paths differ, names do not): 2..3 plain declarations of different
+    classes get one name; `assign_deps` then makes some test depend on all of them"""
+    cands = []
+
+    def walk(cs, visible):
+        for c in cs:
+            vis = visible and not c["hidden"]
+            if vis:
+                plain = [d for d in c["tests"] if d["param"] is None and not d["hidden"]]
+                if plain:
+                    cands.append(rng.choice(plain))
+            walk(c["subs"], vis)
+    walk(case["classes"], True)
+    if len(cands) < 2:
+        return
+    twins = rng.sample(cands, min(len(cands), rng.choice([2, 2, 3])))
+    name = "twin_%s" % rng.choice(WORDS)
+    for d in twins:
+        d["name"] = name
+        d["desc"] = d["desc"] or "Desc of %s" % d["attr"]
+    if rng.random() < 0.6:
+        rng.choice(twins[1:])["behav"] = rng.choice(["fail", "slow"])     # not the first of that name
+    case["twins"] = name
+
+
+def expected_targets(classes):
+    """[(declaration, [dotted paths its expansions are expected to get])] for the declarations in visible places, tree order"""
+    out = []
+
+    def walk(cs, path, visible):
+        for c in cs:
+            me = path + [c["name"] or c["attr"]]
+            vis = visible and not c["hidden"]
+            for d in c["tests"]:
+                names = [n for n in _expected_names(d) if "." not in n] if vis else []
+                out.append((d, [".".join(me + [n]) for n in names]))
+            walk(c["subs"], me, vis)
+    walk(classes, [], True)
+    return out
+
+
+def assign_deps(rng, case, profile):
+    """second pass: the dependency graph over the declared tests.
+       default : sparse DAG, mostly towards tests declared earlier (sometimes any direction)
+       deps    : dense DAG (chains, diamonds, forward and cross-suite edges) | + a cycle of length 1..4, entered from
+                 outside or not | + an unknown path | + a filter that leaves some tests out of the run
+       every declaration's dependencies are spread over 1..3 stacked decorators; some are written as predicates"""
+    decls = expected_targets(case["classes"])
+    live = [(d, ps) for d, ps in decls if ps]
+    tag_of = {}
+    for d, ps in decls:
+        for t in d["tags"]:
+            tag_of.setdefault(t, []).append(d)
+    case["mode"] = "dag"
+    if not live:
+        return
+    dense = profile == "deps"
+    order = list(range(len(live)))
+    if dense or rng.random() < 0.3:
+        rng.shuffle(order)                                    # edges towards "earlier in a random permutation": forward references
+    pos = {id(live[k][0]): i for i, k in enumerate(order)}
+    p_dep = rng.choice([0.35, 0.5, 0.7]) if dense else 0.2
+
+    def item(target_path, src):
+        """a path, or a predicate that selects exactly the same test(s)"""
+        r = rng.random()
+        if r < (0.25 if dense else 0.15):
+            return {"pred": "path=" + target_path}
+        if r < (0.32 if dense else 0.2):
+            return {"pred": "name=" + target_path.rsplit(".", 1)[1]}
+        return target_path
+
+    for k in order:
+        d, ps = live[k]
+        if rng.random() >= p_dep:
+            continue
+        earlier = [(e, eps) for e, eps in live if pos[id(e)] < pos[id(d)]]
+        if not earlier:
+            continue
+        picked = []
+        for e, eps in rng.sample(earlier, min(len(earlier), rng.choice([1, 1, 2, 3] if dense else [1, 1, 2]))):
+            picked.append(item(rng.choice(eps), d))
+        # a tag predicate, when every test carrying the tag is earlier (keeps the graph acyclic)
+        if rng.random() < 0.12:
+            for tag, ds in tag_of.items():
+                if ds and all(id(x) in pos and pos[id(x)] < pos[id(d)] for x in ds) and all(x is not d for x in ds):
+                    picked.append({"pred": "tag=" + tag})
+                    break
+        d["dep_groups"] = split_groups(rng, picked)
+    if not dense:
+        return
+    if case.get("twins"):
+        # a test depending on ALL the same-named tests: one path per twin (spread over decorators) or one name predicate
+        tw = [(d, ps) for d, ps in live if d["name"] == case["twins"]]
+        later = [(d, ps) for d, ps in live if all(pos[id(d)] > pos[id(x)] for x, _ in tw) and all(d is not x for x, _ in tw)]
+        if len(tw) >= 2 and later:
+            e, _ = rng.choice(later)
+            if rng.random() < 0.4:
+                add_dep(rng, e, {"pred": "name=" + case["twins"]})
+            else:
+                for x, ps in tw:
+                    add_dep(rng, e, ps[0])
+    r = rng.random()
+    if r < 0.38:
+        case["mode"] = "cycle"
+        length = min(len(live), rng.choice([1, 1, 2, 2, 3, 4]))
+        members = rng.sample(live, length)
+        for i, (d, ps) in enumerate(members):
+            nd, nps = members[(i + 1) % length]
+            add_dep(rng, d, item(rng.choice(nps), d))
+        outside = [x for x in live if all(x[0] is not m[0] for m in members)]
+        if outside and rng.random() < 0.75:
+            case["mode"] = "cycle+entry"
+            e, _ = rng.choice(outside)
+            target = rng.choice(members)
+            if len(outside) > 1 and rng.random() < 0.4:
+                mid, mps = rng.choice([x for x in outside if x[0] is not e])      # e -> mid -> cycle
+                add_dep(rng, mid, item(rng.choice(target[1]), mid))
+                add_dep(rng, e, item(rng.choice(mps), e))
+            else:
+                add_dep(rng, e, item(rng.choice(target[1]), e))
+    elif r < 0.48:
+        case["mode"] = "unknown"
+        d, ps = rng.choice(live)
+        bogus = rng.choice(["nosuch.test", ps[0] + "_x", ps[0].rsplit(".", 1)[0], "t_missing"])
+        add_dep(rng, d, bogus)
+    if rng.random() < 0.3:
+        allp = [p for _, ps in live for p in ps]
+        keep = [p for p in allp if rng.random() < 0.7] or [rng.choice(allp)]
+        case["filter"] = {"paths": keep}
+
+
+def split_groups(rng, items):
+    if not items:
+        return []
+    k = rng.choice([1, 1, 2, 2, 3])
+    k = min(k, len(items))
+    cuts = sorted(rng.sample(range(1, len(items)), k - 1)) if k > 1 else []
+    groups, prev = [], 0
+    for c in cuts + [len(items)]:
+        groups.append(items[prev:c])
+        prev = c
+    return groups
+
+
+def add_dep(rng, d, it):
+    """one more dependency: into an existing decorator or as a new decorator (inner or outer)"""
+    groups = d["dep_groups"]
+    r = rng.random()
+    if groups and r < 0.4:
+        g = rng.choice(groups)
+        g.insert(rng.randint(0, len(g)), it)
+    elif r < 0.7:
+        groups.insert(0, [it])          # applied first: the INNERMOST decorator
+    else:
+        groups.append([it])             # the outermost decorator
 
 
 def iter_decls(classes, path=(), inh_disabled=False, visible=True):
@@ -216,7 +445,8 @@ def iter_decls(classes, path=(), inh_disabled=False, visible=True):
 
 
 # ------------------------------------------------------------------------------------------------
-# rendering to Python source
+# decorators: one structured list per declaration, in TEXTUAL order (top to bottom); the source and the model
+# request (application order = bottom-up) are both derived from it
 # ------------------------------------------------------------------------------------------------
 
 def _py(v):
@@ -247,80 +477,206 @@ def _render_param(p):
     return "@lcc.parametrized(%s, naming_scheme=%s)" % (src, CUSTOM_NAMING[n["which"]])
 
 
-def _decorators(x, is_test, rng_order):
+def _dep_src(d):
+    return _py(d) if isinstance(d, str) else pred_src(d["pred"])
+
+
+def _dep_json(d):
+    return {"path": d.split(".")} if isinstance(d, str) else {"pred": d["pred"]}
+
+
+def decorators(x, is_test):
+    """[{"k": kind, ..., "src": "@lcc.…"}] top to bottom.  Decorators that ACCUMULATE (`tags`, `depends_on`, `link`, `prop`)
+    may occur several times; their relative position is chosen so that — applied bottom-up — the metadata get the
+    described order (dep_groups[0] is the bottom-most `depends_on`, the first link the bottom-most `link`, …)."""
+    order = x["order"]
     decs = []
     if x["disabled"]:
         if x["disabled"] is True:
-            decs.append('@lcc.disabled("")' if x.get("empty_reason") else "@lcc.disabled()")
+            reason = "" if x.get("empty_reason") else None
+            decs.append({"k": "disabled", "reason": reason, "src": '@lcc.disabled("")' if reason == "" else "@lcc.disabled()"})
         else:
-            decs.append("@lcc.disabled(%s)" % _py(x["disabled"]))
-    if x["tags"]:
-        decs.append("@lcc.tags(%s)" % ", ".join(_py(t) for t in x["tags"]))
+            decs.append({"k": "disabled", "reason": x["disabled"], "src": "@lcc.disabled(%s)" % _py(x["disabled"])})
+    tag_groups = [[t] for t in x["tags"]] if x.get("split_tags") else ([list(x["tags"])] if x["tags"] else [])
+    for _ in tag_groups:
+        decs.append({"k": "tags"})
     if x["hidden"]:
-        decs.append("@lcc.hidden()")
-    if is_test:
-        if x["deps"]:
-            decs.append("@lcc.depends_on(%s)" % ", ".join(_py(d) for d in x["deps"]))
-        if x["param"] is not None:
-            decs.append(_render_param(x["param"]))
-    random.Random(rng_order).shuffle(decs)
-    # decorators apply bottom-up: links and properties are written in reverse (as blocks) so that md.links / md.properties
-    # have the described order
-    links = ["@lcc.link(%s)" % (_py(u) if n is None else "%s, %s" % (_py(u), _py(n))) for u, n in reversed(x["links"])]
-    props = ["@lcc.prop(%s, %s)" % (_py(k), _py(v)) for k, v in reversed(x["props"])]
-    r = random.Random(rng_order + 1)
+        decs.append({"k": "hidden", "src": "@lcc.hidden()"})
+    groups = dep_groups(x) if is_test else []
+    for _ in groups:
+        decs.append({"k": "depends_on"})
+    if is_test and x["param"] is not None:
+        p = x["param"]
+        decs.append({"k": "parametrized", "src": _render_param(p),
+                     "sets": [[[k, v] for k, v in zip(p["names"], vals)] for vals in p["sets"]],
+                     "naming": {"k": p["naming"]["k"], "name": p["naming"].get("name"), "desc": p["naming"].get("desc"),
+                                "which": p["naming"].get("which")}})
+    random.Random(order).shuffle(decs)
+    # the accumulating decorators: bottom-most slot = first group
+    slots = [d for d in decs if d["k"] == "tags"]
+    for d, g in zip(reversed(slots), tag_groups):
+        d.update(tags=list(g), src="@lcc.tags(%s)" % ", ".join(_py(t) for t in g))
+    slots = [d for d in decs if d["k"] == "depends_on"]
+    for d, g in zip(reversed(slots), groups):
+        d.update(args=[_dep_json(a) for a in g], src="@lcc.depends_on(%s)" % ", ".join(_dep_src(a) for a in g))
+    links = [{"k": "link", "url": u, "name": n, "src": "@lcc.link(%s)" % (_py(u) if n is None else "%s, %s" % (_py(u), _py(n)))}
+             for u, n in reversed(x["links"])]
+    props = [{"k": "prop", "key": k, "value": v, "src": "@lcc.prop(%s, %s)" % (_py(k), _py(v))} for k, v in reversed(x["props"])]
+    r = random.Random(order + 1)
     k = r.randint(0, len(decs))
     decs = decs[:k] + links + decs[k:]
-    k = r.choice([i for i in range(len(decs) + 1) if not (0 < i < len(decs) and decs[i - 1].startswith("@lcc.link") and decs[i].startswith("@lcc.link"))])
-    return decs[:k] + props + decs[k:]
+    k = r.choice([i for i in range(len(decs) + 1) if not (0 < i < len(decs) and decs[i - 1]["k"] == "link" and decs[i]["k"] == "link")])
+    decs = decs[:k] + props + decs[k:]
+    # the marking decorator itself
+    args = []
+    if x["desc"] is not None:
+        args.append(_py(x["desc"]))
+    if x["name"] is not None:
+        args.append("name=%s" % _py(x["name"]))
+    if is_test:
+        k = (order >> 3) % (len(decs) + 1)
+        mark = {"k": "test", "desc": x["desc"], "name": x["name"], "src": "@lcc.test(%s)" % ", ".join(args)}
+    else:
+        if x["rank"] is not None:
+            args.append("rank=%d" % x["rank"])
+        k = len(decs) // 2
+        mark = {"k": "suite", "desc": x["desc"], "name": x["name"], "rank": x["rank"], "src": "@lcc.suite(%s)" % ", ".join(args)}
+    return decs[:k] + [mark] + decs[k:]
 
 
-def render(classes):
+# ------------------------------------------------------------------------------------------------
+# classes: bases, attributes, hooks
+# ------------------------------------------------------------------------------------------------
+
+def stored_key(cls_name, attr):
+    """the key an attribute written `attr` inside `class cls_name:` is stored under (private name mangling)"""
+    if attr.startswith("__") and not attr.endswith("__"):
+        return "_" + cls_name.lstrip("_") + attr
+    return attr
+
+
+def base_index(case):
+    return {b["name"]: b for b in case.get("bases", [])}
+
+
+def mro(cls, bases_by_name):
+    """linearisation of the generated hierarchies (no diamond is generated: depth-first, left to right)"""
+    out = [cls]
+    for bn in cls.get("bases", []):
+        for x in mro(bases_by_name[bn], bases_by_name):
+            if all(x is not y for y in out):
+                out.append(x)
+    return out
+
+
+def cls_name(c):
+    return c.get("attr") or c["name"]
+
+
+def layers_of(cls, bases_by_name):
+    """the attribute layers `getattr` consults on an instance: the instance dict (what the `__init__`s assigned, base
+    classes first), then the class dicts in MRO order.  [[ [stored key, kind] ]], kind = {"k": "inject", "name": n|None} |
+    {"k": "method", "params": [...]} | {"k": "other"}"""
+    chain = mro(cls, bases_by_name)
+    inst = {}
+    for k in reversed(chain):                  # every generated __init__ calls super().__init__() first
+        for it in k.get("inject", []):
+            if it["where"] == "init":
+                inst[stored_key(cls_name(k), it["attr"])] = {"k": "inject", "name": it["fixture"]}
+        for it in k.get("plain", []):
+            if it["where"] == "init":
+                inst[stored_key(cls_name(k), it["attr"])] = {"k": "other"}
+    out = [[[a, v] for a, v in inst.items()]]
+    for k in chain:
+        layer = []
+        for it in k.get("inject", []):
+            if it["where"] == "body":
+                layer.append([stored_key(cls_name(k), it["attr"]), {"k": "inject", "name": it["fixture"]}])
+        for it in k.get("plain", []):
+            if it["where"] == "body":
+                layer.append([stored_key(cls_name(k), it["attr"]), {"k": "other"}])
+        for h, spec in (k.get("hooks") or {}).items():
+            layer.append([h, {"k": "method", "params": list(spec.get("params", HOOK_ARGS.get(h, [])))}])
+        for t in k.get("tests", []):
+            layer.append([t["attr"], {"k": "other"}])
+        for s in k.get("subs", []):
+            layer.append([s["attr"], {"k": "other"}])
+        if any(it["where"] == "init" for it in k.get("inject", []) + k.get("plain", [])):
+            layer.append(["__init__", {"k": "other"}])
+        if "tests" in k:
+            layer.append(["_lccmetadata", {"k": "other"}])      # what `@lcc.suite` leaves on the class
+        out.append(layer)
+    return out
+
+
+def has_init(k):
+    return any(it["where"] == "init" for it in k.get("inject", []) + k.get("plain", []))
+
+
+def _class_body(k, pad, out, is_suite, render_test, render_cls):
+    """attributes, __init__, hooks (then, for a suite class, its tests and nested classes)"""
+    n0 = len(out)
+    for it in k.get("inject", []):
+        if it["where"] == "body":
+            out.append(pad + "%s = lcc.inject_fixture(%s)" % (it["attr"], "" if it["fixture"] is None else _py(it["fixture"])))
+    for it in k.get("plain", []):
+        if it["where"] == "body":
+            out.append(pad + "%s = None" % it["attr"])
+    if has_init(k):
+        out.append(pad + "def __init__(self):")
+        out.append(pad + "    super().__init__()")
+        for it in k.get("inject", []):
+            if it["where"] == "init":
+                out.append(pad + "    self.%s = lcc.inject_fixture(%s)" % (it["attr"], "" if it["fixture"] is None else _py(it["fixture"])))
+        for it in k.get("plain", []):
+            if it["where"] == "init":
+                out.append(pad + "    self.%s = 0" % it["attr"])
+        out.append("")
+    for h, spec in (k.get("hooks") or {}).items():
+        params = list(spec.get("params", HOOK_ARGS.get(h, [])))
+        out.append(pad + "def %s(%s):" % (h, ", ".join(["self"] + params)))
+        out.append(pad + "    _hook(self, %r, {%s})" % (h, ", ".join("%r: %s" % (p, p) for p in params)))
+        out.append("")
+    if is_suite:
+        tests = [("t", t) for t in k["tests"]]
+        subs = [("s", s) for s in k["subs"]]
+        for kind, x in (subs + tests if k["subs_first"] else tests + subs):
+            if kind == "s":
+                render_cls(x)
+            else:
+                render_test(x)
+            out.append("")
+    if len(out) == n0:
+        out.append(pad + "pass")
+
+
+def render(classes, bases=()):
     out = ["import lemoncheesecake.api as lcc", ""]
+
+    def base(b):
+        out.append("class %s%s:" % (b["name"], "(%s)" % ", ".join(b["bases"]) if b.get("bases") else ""))
+        _class_body(b, "    ", out, False, None, None)
+        out.append("")
 
     def cls(c, ind):
         pad = "    " * ind
-        args = []
-        if c["desc"] is not None:
-            args.append(_py(c["desc"]))
-        if c["name"] is not None:
-            args.append("name=%s" % _py(c["name"]))
-        if c["rank"] is not None:
-            args.append("rank=%d" % c["rank"])
-        decs = _decorators(c, False, c["order"])
-        k = len(decs) // 2
-        for d in decs[:k] + ["@lcc.suite(%s)" % ", ".join(args)] + decs[k:]:
-            out.append(pad + d)
-        out.append(pad + "class %s:" % c["attr"])
-        body = []
-        tests = [("t", t) for t in c["tests"]]
-        subs = [("s", s) for s in c["subs"]]
-        for kind, x in (subs + tests if c["subs_first"] else tests + subs):
-            body.append((kind, x))
-        if not body:
-            out.append(pad + "    pass")
-        for kind, x in body:
-            if kind == "s":
-                cls(x, ind + 1)
-            else:
-                test(x, ind + 1)
-            out.append("")
+        for d in decorators(c, False):
+            out.append(pad + d["src"])
+        out.append(pad + "class %s%s:" % (c["attr"], "(%s)" % ", ".join(c["bases"]) if c.get("bases") else ""))
+        _class_body(c, pad + "    ", out, True, lambda t: test(t, ind + 1), lambda s: cls(s, ind + 1))
 
     def test(t, ind):
         pad = "    " * ind
-        args = []
-        if t["desc"] is not None:
-            args.append(_py(t["desc"]))
-        if t["name"] is not None:
-            args.append("name=%s" % _py(t["name"]))
-        decs = _decorators(t, True, t["order"])
-        k = (t["order"] >> 3) % (len(decs) + 1)
-        for d in decs[:k] + ["@lcc.test(%s)" % ", ".join(args)] + decs[k:]:
-            out.append(pad + d)
+        for d in decorators(t, True):
+            out.append(pad + d["src"])
         names = t["param"]["names"] if t["param"] is not None else []
-        out.append(pad + "def %s(%s):" % (t["attr"], ", ".join(["self"] + names)))
-        out.append(pad + "    _rec(%r, {%s})" % (t["attr"], ", ".join("%r: %s" % (n, n) for n in names)))
+        args = list(t.get("args", []))
+        out.append(pad + "def %s(%s):" % (t["attr"], ", ".join(["self"] + names + args)))
+        out.append(pad + "    _body(self, %r, {%s}, {%s})" % (
+            t["attr"], ", ".join("%r: %s" % (n, n) for n in names), ", ".join("%r: %s" % (n, n) for n in args)))
 
+    for b in bases:
+        base(b)
     for c in classes:
         cls(c, 0)
         out.append("")
@@ -328,7 +684,7 @@ def render(classes):
 
 
 # ------------------------------------------------------------------------------------------------
-# the real loader and runner
+# the real loader, validation and runner
 # ------------------------------------------------------------------------------------------------
 
 class _Backend(ReportingBackend, ReportingSessionBuilderMixin):
@@ -343,6 +699,13 @@ def _dis(v):
     return v if isinstance(v, str) else bool(v)
 
 
+def canon_dep(d):
+    if isinstance(d, str):
+        return d.split(".")
+    key = (getattr(d, "__defaults__", None) or (None,))[0]
+    return ["<pred>", key] if isinstance(key, str) else ["<callable>"]
+
+
 def canon_tree(suites):
     """the loaded tree as the model prints it; ranks become dense ranks among the siblings (only their ORDER is compared)"""
     def dense(nodes):
@@ -353,22 +716,43 @@ def canon_tree(suites):
         return {"name": t.name, "desc": t.description, "rank": dr[t.rank], "disabled": _dis(t.disabled),
                 "tags": list(t.tags), "props": [[k, v] for k, v in t.properties.items()],
                 "links": [[l[0], l[1]] for l in t.links],
-                "deps": [d.split(".") if isinstance(d, str) else ["<callable>"] for d in t.dependencies],
-                "params": [[k, v] for k, v in t.parameters.items()], "decl": getattr(t.callback, "__name__", None)}
+                "deps": [canon_dep(d) for d in t.dependencies],
+                "params": [[k, v] for k, v in t.parameters.items()], "fixtures": list(t.get_fixtures()),
+                "decl": getattr(t.callback, "__name__", None)}
 
     def suite(s, dr):
         tests = s.get_tests()
         subs = s.get_suites()
         dt, ds = dense(tests), dense(subs)
+        hooks = {}
+        for h in HOOKS:
+            if s.has_hook(h):
+                hooks[h] = list(s.get_hook_params(h))
         return {"name": s.name, "desc": s.description, "rank": dr[s.rank], "disabled": _dis(s.disabled), "tags": list(s.tags),
                 "props": [[k, v] for k, v in s.properties.items()], "links": [[l[0], l[1]] for l in s.links],
+                "injected": [[f, a] for f, a in s._injected_fixtures.items()], "hooks": hooks,
                 "tests": [test(t, dt) for t in tests], "suites": [suite(x, ds) for x in subs]}
     dr = dense(suites)
     return [suite(s, dr) for s in suites]
 
 
+def real_ranks(suites):
+    """{dotted path: the rank the loader stored} for every suite and test"""
+    out = {}
+
+    def walk(s):
+        out[s.path] = s.rank
+        for t in s.get_tests():
+            out[t.path] = t.rank
+        for x in s.get_suites():
+            walk(x)
+    for s in suites:
+        walk(s)
+    return out
+
+
 def model_tree(tree):
-    """the model's tree with dense sibling ranks and without what the model does not print"""
+    """the model's tree with dense sibling ranks"""
     def dense(nodes):
         order = sorted({n["rank"] for n in nodes})
         return {r: i + 1 for i, r in enumerate(order)}
@@ -424,93 +808,157 @@ def _report_suites(report):
     return out
 
 
-def run_case(case, watchdog=30.0):
-    src = render(case["classes"])
-    executed = []
-    lock = threading.Lock()
-
-    def _rec(decl, kwargs):
-        with lock:
-            executed.append([decl, sorted([k, v] for k, v in kwargs.items())])
-
-    obs = {"source": src, "runs": []}
+def exec_source(src, ns):
+    """exec the rendered module; builder.get_metadata keeps every decorated object in a module-global list and scans it
+    linearly: the list is truncated back afterwards (housekeeping, no behaviour of the loader depends on it once the
+    decorators have run)"""
     keep = len(LB._objects_with_metadata)
-    ns = {"_rec": _rec}
     try:
         exec(compile(src, "<lccverif-decl>", "exec"), ns)
+    finally:
+        del LB._objects_with_metadata[keep:]
+
+
+def make_project(tmp, load_suites, load_fixtures=lambda: []):
+    class DeclaredProject(LP.Project):
+        def __init__(self):
+            LP.Project.__init__(self, tmp)
+
+        def load_suites(self):
+            return load_suites()
+
+        def load_fixtures(self):
+            return load_fixtures()
+    return DeclaredProject()
+
+
+def prepare(project, flt):
+    """what `lcc run` does before anything executes: load, filter, PreparedProject.create.
+    -> (prepared | None, {"empty"|"filter_empty"|"resolve_error"|"resolved": ...})"""
+    sched = None
+    if flt is not None:
+        suites = project.load_suites()
+        if all(s.is_empty() for s in suites):
+            return None, {"empty": True}
+        sched = filter_suites(suites, TestFilter(paths=list(flt["paths"])))
+        if not sched:
+            return None, {"filter_empty": True}
+    try:
+        prepared = LP.PreparedProject.create(project, sched)       # loads the suites (again)
+    except Exception as e:
+        return None, {"resolve_error": [type(e).__name__, str(e)[:300]]}
+    if all(s.is_empty() for s in prepared.suites):
+        return None, {"empty": True}
+    resolved = [[t.path.split("."), [d.path.split(".") for d in t.resolved_dependencies]] for t in flatten_tests(prepared.suites)]
+    return prepared, {"resolved": resolved}
+
+
+def run_case(case, watchdog=30.0):
+    src = render(case["classes"], case.get("bases", []))
+    events = []
+    lock = threading.Lock()
+    behav = {d["attr"]: d.get("behav", "pass") for d, _, _, _ in iter_decls(case["classes"])}
+
+    def _body(obj, decl, params, kwargs):
+        with lock:
+            k = len(events)
+            events.append(["start", decl, sorted([a, v] for a, v in params.items()), threading.get_ident()])
+        b = behav.get(decl, "pass")
+        if b == "slow":
+            time.sleep(0.004)
+        elif b == "fail":
+            lcc.log_error("declared to fail")
+        with lock:
+            events.append(["end", k])
+
+    def _hook(obj, hook, kwargs):
+        with lock:
+            events.append(["hook", type(obj).__name__, hook])
+
+    obs = {"source": src, "runs": []}
+    ns = {"_body": _body, "_hook": _hook}
+    try:
+        exec_source(src, ns)
     except Exception as e:        # decorator-time rejection (assertion of a decorator)
         obs["load"] = {"error": [type(e).__name__, str(e)[:300]], "at": "import"}
         return obs
-    finally:
-        # builder.get_metadata keeps every decorated object in a module-global list and scans it linearly
-        del LB._objects_with_metadata[keep:]
     tops = [ns[c["attr"]] for c in case["classes"]]
-
-    def load():
-        return load_suites_from_classes(tops)
-
+    tmp0 = tempfile.mkdtemp(prefix="lccverif-decl-")
     try:
-        suites = load()
-    except Exception as e:
-        obs["load"] = {"error": [type(e).__name__, str(e)[:300]], "at": "load"}
-        return obs
-    obs["load"] = {"tree": canon_tree(suites)}
-    if all(s.is_empty() for s in suites):
-        obs["empty"] = True          # "No test is defined": nothing to run
-        return obs
-    try:
-        resolve_tests_dependencies(suites, suites)
-    except Exception as e:
-        obs["resolve_error"] = [type(e).__name__, str(e)[:300]]
-        return obs
-    for n in THREADS:
-        for force in (False, True):
-            del executed[:]
-            run = {"n": n, "force": force}
-            tmp = tempfile.mkdtemp(prefix="lccverif-decl-")
-            old = Session._instance
-            side = {}
+        project = make_project(tmp0, lambda: load_suites_from_classes(tops))
+        try:
+            suites = project.load_suites()
+        except Exception as e:
+            obs["load"] = {"error": [type(e).__name__, str(e)[:300]], "at": "load"}
+            return obs
+        obs["load"] = {"tree": canon_tree(suites)}
+        prepared, verdict = prepare(project, case.get("filter"))
+        obs.update(verdict)
+        obs["executed_during_validation"] = len(events)
+        if prepared is None:
+            return obs
+        for n in THREADS:
+            for force in (False, True):
+                del events[:]
+                run = {"n": n, "force": force}
+                tmp = tempfile.mkdtemp(prefix="lccverif-decl-")
+                old = Session._instance
+                side = {}
 
-            def body():
+                def body():
+                    try:
+                        prep, v = prepare(project, case.get("filter"))
+                        session = Session.create(AsyncEventManager.load(), [_Backend()], tmp, None, nb_threads=n)
+                        side["session"] = session
+                        side["returned"] = bool(run_suites(prep.suites, prep.fixture_registry, session, force_disabled=force, nb_threads=n))
+                    except BaseException as e:
+                        side["raised"] = [type(e).__name__, str(e)[:300]]
                 try:
-                    ss = load()
-                    resolve_tests_dependencies(ss, ss)
-                    session = Session.create(AsyncEventManager.load(), [_Backend()], tmp, None, nb_threads=n)
-                    side["session"] = session
-                    side["returned"] = bool(run_suites(ss, FixtureRegistry(), session, force_disabled=force, nb_threads=n))
-                except BaseException as e:
-                    side["raised"] = [type(e).__name__, str(e)[:300]]
-            try:
-                th = threading.Thread(target=body, daemon=True, name="lccverif-decl")
-                th.start()
-                th.join(watchdog)
-                if th.is_alive():
-                    run["outcome"] = {"hang": True}
-                elif "raised" in side:
-                    run["outcome"] = {"raised": side["raised"][0], "text": side["raised"][1]}
-                else:
-                    run["outcome"] = {"returned": side["returned"]}
-                session = side.get("session")
-                if session is not None and not th.is_alive():
-                    run["tests"] = _report_tests(session.report)
-                    run["suites"] = _report_suites(session.report)
-                with lock:
-                    run["executed"] = sorted(executed, key=lambda x: json.dumps(x))
-            finally:
-                Session._instance = old
-                shutil.rmtree(tmp, ignore_errors=True)
-            obs["runs"].append(run)
-    return obs
+                    th = threading.Thread(target=body, daemon=True, name="lccverif-decl")
+                    th.start()
+                    th.join(watchdog)
+                    if th.is_alive():
+                        run["outcome"] = {"hang": True}
+                    elif "raised" in side:
+                        run["outcome"] = {"raised": side["raised"][0], "text": side["raised"][1]}
+                    else:
+                        run["outcome"] = {"returned": side["returned"]}
+                    session = side.get("session")
+                    if session is not None and not th.is_alive():
+                        run["tests"] = _report_tests(session.report)
+                        run["suites"] = _report_suites(session.report)
+                    with lock:
+                        evs = list(events)
+                    ends = {e[1]: i for i, e in enumerate(evs) if e[0] == "end"}
+                    order = [[e[1], e[2], i, ends.get(i)] for i, e in enumerate(evs) if e[0] == "start"]
+                    run["order"] = order                 # [declaration, parameters, start position, end position | None]
+                    run["executed"] = sorted(([o[0], o[1]] for o in order), key=lambda x: json.dumps(x))
+                finally:
+                    Session._instance = old
+                    shutil.rmtree(tmp, ignore_errors=True)
+                obs["runs"].append(run)
+        return obs
+    finally:
+        shutil.rmtree(tmp0, ignore_errors=True)
 
 
 # ------------------------------------------------------------------------------------------------
 # C01 on the observation
 # ------------------------------------------------------------------------------------------------
 
+def scheduled_paths(case, obs):
+    """dotted paths of the loaded tests that are going to be run (all of them without a filter)"""
+    paths = [".".join(p) for p, _, _ in flat_tests(obs["load"]["tree"])]
+    if case.get("filter") is None:
+        return paths
+    keep = set(case["filter"]["paths"])
+    return [p for p in paths if p in keep]
+
+
 def oracle(case, obs):
     out = []
     load = obs.get("load", {})
-    if "tree" not in load or obs.get("empty") or "resolve_error" in obs:
+    if "tree" not in load or obs.get("empty") or "resolve_error" in obs or obs.get("filter_empty"):
         return out
     tree = load["tree"]
     decls = {}
@@ -533,6 +981,8 @@ def oracle(case, obs):
             if [t["params"] for _, t in got] != sets:
                 out.append(C.Failure("C01/decl/expansion-parameters", "declaration %s: parameter sets %r, loaded tests carry %r" % (
                     attr, sets, [t["params"] for _, t in got])))
+    sched = set(scheduled_paths(case, obs))
+    loaded = [x for x in loaded if ".".join(x[0]) in sched]
     paths = [".".join(p) for p, _, _ in loaded]
     for run in obs["runs"]:
         tag = "n=%d force=%s" % (run["n"], run["force"])
@@ -581,21 +1031,169 @@ def oracle(case, obs):
 
 
 # ------------------------------------------------------------------------------------------------
+# C04 on the observation
+# ------------------------------------------------------------------------------------------------
+
+def declared_graph(case, obs):
+    """the dependency graph the DECLARATIONS denote, over the loaded tests:
+       {test path: [("ok", dep path) | ("unknown", text)]}, from the description (every argument of every depends_on
+       decorator of the declaring method) and the names / tags of the loaded tests; a predicate never selects its own test"""
+    loaded = list(flat_tests(obs["load"]["tree"]))
+    paths = [".".join(p) for p, _, _ in loaded]
+    decls = {d["attr"]: d for d, _, _, _ in iter_decls(case["classes"])}
+    g = {}
+    for p, t, _ in loaded:
+        me = ".".join(p)
+        items = []
+        for dep in flat_deps(decls[t["decl"]]):
+            if isinstance(dep, str):
+                items.append(("ok", dep) if dep in paths else ("unknown", dep))
+            else:
+                for q, u, _ in loaded:
+                    if ".".join(q) != me and pred_holds(dep["pred"], q, u["name"], u["tags"]):
+                        items.append(("ok", ".".join(q)))
+        g[me] = items
+    return g
+
+
+def graph_defects(g, sched):
+    """why a project with this graph must be rejected (empty = it is fine): over the tests going to be run"""
+    sched = set(sched)
+    out = []
+    for t in g:
+        if t not in sched:
+            continue
+        for kind, d in g[t]:
+            if kind == "unknown":
+                out.append(("unknown", t, d))
+            elif d not in sched:
+                out.append(("unscheduled", t, d))
+    if out:
+        return out
+    # cycle among the scheduled tests (closed under dependencies here)
+    state = {}
+
+    def visit(t, stack):
+        if state.get(t) == 2:
+            return None
+        if t in stack:
+            return stack[stack.index(t):] + [t]
+        for _, d in g[t]:
+            c = visit(d, stack + [t])
+            if c:
+                return c
+        state[t] = 2
+        return None
+    for t in g:
+        if t in sched:
+            c = visit(t, [])
+            if c:
+                return [("cycle", t, " -> ".join(c))]
+    return []
+
+
+def oracle_c04(case, obs):
+    out = []
+    load = obs.get("load", {})
+    if "tree" not in load or obs.get("empty") or obs.get("filter_empty"):
+        return out
+    loaded = list(flat_tests(load["tree"]))
+    decls = {d["attr"]: d for d, _, _, _ in iter_decls(case["classes"])}
+    # 1. nothing a depends_on decorator says is lost on the way to the loaded test
+    for p, t, _ in loaded:
+        want = [d.split(".") if isinstance(d, str) else ["<pred>", d["pred"]] for d in flat_deps(decls[t["decl"]])]
+        got = list(t["deps"])
+        missing = [d for d in want if d not in got]
+        if missing:
+            out.append(C.Failure("C04/decl/declared-dependency-not-loaded", "%s is declared to depend on %r; the loaded test only depends on %r" % (
+                ".".join(p), [".".join(d) for d in want], [".".join(d) for d in got])))
+    # 2. early rejection
+    g = declared_graph(case, obs)
+    sched = scheduled_paths(case, obs)
+    defects = graph_defects(g, sched)
+    accepted = "resolve_error" not in obs
+    if defects and accepted:
+        kind, t, d = defects[0]
+        sig = {"cycle": "C04/cycle-accepted", "unknown": "C04/unknown-dependency-accepted", "unscheduled": "C04/unscheduled-dependency-accepted"}[kind]
+        out.append(C.Failure(sig, "the project was accepted by PreparedProject.create although %s: %s (%s)" % (
+            {"cycle": "its dependencies are circular", "unknown": "a dependency names no test", "unscheduled": "a dependency is not going to be run"}[kind], d, t)))
+    if not accepted:
+        if obs.get("executed_during_validation"):
+            out.append(C.Failure("C04/decl/user-code-ran-before-rejection", "%d bodies / hooks ran before the project was rejected" % obs["executed_during_validation"]))
+        return out
+    if defects:
+        return out
+    # 3. the resolved dependencies are exactly what the declarations denote
+    res = {".".join(p): [".".join(d) for d in ds] for p, ds in obs.get("resolved", [])}
+    for t in sched:
+        want = [d for _, d in g[t]]
+        if sorted(set(want)) != sorted(set(res.get(t, []))):
+            out.append(C.Failure("C04/decl/resolved-dependencies-differ", "%s: declared %r, resolved %r" % (t, want, res.get(t))))
+    # 4. ordering and skip propagation in every run
+    by_path = {".".join(p): (t, dis) for p, t, dis in loaded}
+    for run in obs["runs"]:
+        tag = "n=%d force=%s" % (run["n"], run["force"])
+        if "returned" not in run["outcome"] or "tests" not in run:
+            continue
+        status = {".".join(p): st for p, st, _ in run["tests"]}
+        span = {}
+        for decl, params, a, b in run["order"]:
+            span.setdefault(json.dumps([decl, params]), []).append((a, b))
+
+        def span_of(path):
+            # a declaration with a REPEATED parameter set has two tests whose bodies cannot be told apart: no span for them
+            t, _ = by_path[path]
+            key = json.dumps([t["decl"], sorted(t["params"])])
+            if sum(1 for _, (u, _) in by_path.items() if json.dumps([u["decl"], sorted(u["params"])]) == key) > 1:
+                return None
+            s = span.get(key)
+            return s[0] if s else None
+        def task_ok(x, seen):
+            """did the TASK of test x succeed: passed, or disabled with every dependency's task successful"""
+            if status.get(x) == "passed":
+                return True
+            if status.get(x) != "disabled" or x in seen:
+                return False
+            return all(task_ok(d, seen + (x,)) for _, d in g[x])
+        for t in sched:
+            mine = span_of(t)
+            bad = [d for _, d in g[t] if status.get(d) not in ("passed", "disabled")]
+            for _, d in g[t]:
+                other = span_of(d)
+                if mine is not None and other is not None and (other[1] is None or other[1] > mine[0]):
+                    out.append(C.Failure("C04/decl/started-before-dependency-finished", "%s: %s started at %s, its dependency %s ran %s" % (tag, t, mine[0], d, other)))
+            if bad and mine is not None:
+                out.append(C.Failure("C04/decl/executed-despite-failed-dependency", "%s: %s was executed although %s is %s" % (tag, t, bad[0], status.get(bad[0]))))
+            if bad and status.get(t) not in ("skipped", "disabled"):
+                out.append(C.Failure("C04/decl/not-skipped-after-failed-dependency", "%s: %s is %s although %s is %s" % (tag, t, status.get(t), bad[0], status.get(bad[0]))))
+            if not bad and status.get(t) == "skipped":
+                # known open finding of C04: a DISABLED dependency whose own task was skipped (one of ITS dependencies,
+                # at any distance through disabled tests, did not pass) is reported disabled but makes its dependents skip
+                through_disabled = any(status.get(d) == "disabled" and not task_ok(d, ()) for _, d in g[t])
+                out.append(C.Failure("C04/dependent-of-disabled-test-skipped" if through_disabled else "C04/decl/skipped-without-failed-dependency",
+                                     "%s: %s is skipped, its dependencies are %r" % (tag, t, [(d, status.get(d)) for _, d in g[t]])))
+    return out
+
+
+# ------------------------------------------------------------------------------------------------
 # model request
 # ------------------------------------------------------------------------------------------------
 
-def model_classes(classes):
-    """description → what drivers/Expand.lean parses: rank = position in the class body (the decoration order of the
-    global counter), or the explicit rank= of a suite"""
+def model_classes(classes, bases=()):
+    """description → what drivers/Expand.lean parses.  Every declaration is (attr, rank, args, decorators in APPLICATION
+    order); rank = position in the class body (the order in which the global counter is drawn), or the explicit rank= of a
+    suite.  Every class carries the attribute layers of its instance (`layers_of`)."""
+    byname = {b["name"]: b for b in bases}
+
+    def decos(x, is_test):
+        out = []
+        for d in reversed(decorators(x, is_test)):
+            out.append({k: v for k, v in d.items() if k != "src"})
+        return out
+
     def decl(t, rank):
-        p = None
-        if t["param"] is not None:
-            n = t["param"]["naming"]
-            p = {"sets": [[[k, v] for k, v in zip(t["param"]["names"], vals)] for vals in t["param"]["sets"]],
-                 "naming": {"k": n["k"], "name": n.get("name"), "desc": n.get("desc"), "which": n.get("which")}}
-        return {"attr": t["attr"], "name": t["name"], "desc": t["desc"], "rank": rank, "tags": t["tags"], "props": t["props"],
-                "links": t["links"], "disabled": t["disabled"], "hidden": t["hidden"], "deps": [d.split(".") for d in t["deps"]],
-                "param": p}
+        names = t["param"]["names"] if t["param"] is not None else []
+        return {"attr": t["attr"], "rank": rank, "args": list(names) + list(t.get("args", [])), "decos": decos(t, True)}
 
     def cls(c, rank):
         # members in textual order get increasing ranks; nested classes are decorated when the body runs, tests too
@@ -607,8 +1205,7 @@ def model_classes(classes):
                 tests.append(decl(x, i + 1))
             else:
                 subs.append(cls(x, x["rank"] if x["rank"] is not None else i + 1))
-        return {"attr": c["attr"], "name": c["name"], "desc": c["desc"], "rank": rank, "tags": c["tags"], "props": c["props"],
-                "links": c["links"], "disabled": c["disabled"], "hidden": c["hidden"], "tests": tests, "subs": subs}
+        return {"attr": c["attr"], "rank": rank, "decos": decos(c, False), "layers": layers_of(c, byname), "tests": tests, "subs": subs}
     return [cls(c, i + 1) for i, c in enumerate(classes)]
 
 
@@ -649,14 +1246,110 @@ CORPUS = [
     ], disabled="whole class off")])]},
 ]
 
+# C04: dependencies spread over stacked decorators (the failing / slow / later-declared dependency in an INNER one),
+# and dependency cycles first entered from a test outside the cycle
+CORPUS_DEPS = [
+    # stacked decorators: `use` depends on quick (outer decorator) and on prepare_db (inner), which fails; `last` is
+    # declared before the slow test it depends on through its inner decorator
+    {"classes": [_c("s", [
+        _t("prepare_db", behav="fail"),
+        _t("quick"),
+        _t("use", dep_groups=[["s.prepare_db"], ["s.quick"]]),
+        _t("use_more", dep_groups=[["s.use"]]),
+        _t("last", dep_groups=[["s.slow"], ["s.quick"]], order=1),
+        _t("slow", behav="slow"),
+    ])], "mode": "dag"},
+    # three stacked decorators, a predicate in the middle one, a parametrized dependent
+    {"classes": [_c("s", [
+        _t("a", tags=["db"]), _t("b", behav="fail"), _t("c"),
+        _t("d", dep_groups=[["s.c"], [{"pred": "name=b"}], ["s.a"]], order=7,
+           param={"form": "dicts", "names": ["n"], "sets": [[1], [2]], "naming": {"k": "default"}}),
+    ])], "mode": "dag"},
+    # an unknown dependency in the inner decorator
+    {"classes": [_c("s", [_t("a"), _t("b", dep_groups=[["s.does_not_exist"], ["s.a"]])])], "mode": "unknown"},
+    # entry test, then a 3-cycle (the cycle is first met from outside)
+    {"classes": [_c("s", [_t("a", dep_groups=[["s.b"]]), _t("b", dep_groups=[["s.c"]]), _t("c", dep_groups=[["s.d"]]),
+                          _t("d", dep_groups=[["s.b"]])])], "mode": "cycle+entry"},
+    # entry from an earlier suite through a predicate, 2-cycle in a later suite
+    {"classes": [_c("first", [_t("e", dep_groups=[[{"pred": "name=x"}]])]),
+                 _c("second", [_t("x", dep_groups=[["second.y"]]), _t("y", dep_groups=[["second.x"]])])], "mode": "cycle+entry"},
+    # entry test, then a self-dependency
+    {"classes": [_c("s", [_t("first", dep_groups=[["s.loop"]]), _t("loop", dep_groups=[["s.loop"]])])], "mode": "cycle+entry"},
+    # diamond above a cycle: the cycle member is reached twice from outside before it is resolved itself
+    {"classes": [_c("s", [_t("top", dep_groups=[["s.l"], ["s.r"]]), _t("l", dep_groups=[["s.m"]]), _t("r", dep_groups=[["s.m"]]),
+                          _t("m", dep_groups=[["s.n"]]), _t("n", dep_groups=[["s.m"]])])], "mode": "cycle+entry"},
+    # tests with the SAME NAME in two suites: a dependent names both by path (two decorators), another one through a name
+    # predicate; the second `prepare` fails
+    {"classes": [_c("a", [_t("prep_a", name="prepare", desc="Prepare a")]),
+                 _c("b", [_t("prep_b", name="prepare", desc="Prepare b", behav="fail")]),
+                 _c("c", [_t("use", dep_groups=[["a.prepare"], ["b.prepare"]]), _t("use2", dep_groups=[[{"pred": "name=prepare"}]])])],
+     "mode": "dag", "twins": "prepare"},
+    # plain 2-cycle (control) and a dependency left out of the run by the filter
+    {"classes": [_c("s", [_t("a", dep_groups=[["s.b"]]), _t("b", dep_groups=[["s.a"]])])], "mode": "cycle"},
+    {"classes": [_c("s", [_t("a"), _t("b", dep_groups=[["s.a"]])])], "mode": "dag", "filter": {"paths": ["s.b"]}},
+]
+
 ERR_MAP = {"KeyError": ("KeyError",), "dupTestDesc": ("SuiteLoadingError", "A test with description"),
            "dupTestName": ("SuiteLoadingError", "A test with name"), "dupSuiteDesc": ("SuiteLoadingError", "A sub test suite with description"),
            "dupSuiteName": ("SuiteLoadingError", "A sub test suite with name")}
+RESOLVE_ERR = {"unknown": "Cannot find dependency test '%(dep)s' for '%(test)s'",
+               "circular": "Got circular dependency on test %(test)s through test %(dep)s",
+               "notScheduled": "Error: test dependency '%(dep)s' of '%(test)s' is not going to be run"}
+
+
+def compare_load(case, obs, ans):
+    """loaded tree (or loader exception) against `Expand.loadSuites`; None when they agree"""
+    if "error" in ans:
+        return "model error: " + str(ans["error"])
+    load = obs["load"]
+    if not ans["agree"]:
+        return "the loader model succeeded with another tree than the specification `expandSuites`"
+    if "err" in ans["load"]:
+        kind, arg = ans["load"]["err"]
+        want = ERR_MAP[kind]
+        if "error" not in load:
+            return "model: loader raises %s(%r); the real loader returned a tree" % (kind, arg)
+        cls, text = load["error"]
+        if cls != want[0] or (len(want) > 1 and not text.startswith(want[1])) or arg not in text:
+            return "model: loader raises %s(%r); real: %s(%s)" % (kind, arg, cls, text[:200])
+        return None
+    if "error" in load:
+        return "real loader raised %r; the model loads a tree" % (load["error"],)
+    real = strip_decl(load["tree"])
+    model = model_tree(ans["load"]["ok"])
+    if real != model:
+        return "loaded tree differs from the model's: " + _first_diff(real, model)
+    return None
+
+
+def compare_resolve(case, obs, ans):
+    """verdict of the real PreparedProject.create against `Deps.resolve` on the loaded tests"""
+    if "tree" not in obs.get("load", {}) or obs.get("empty") or obs.get("filter_empty"):
+        return None
+    res = ans.get("resolve")
+    if res is None:
+        return "the model did not answer the validation question"
+    if "err" in res:
+        kind, test, dep = res["err"]
+        if "resolve_error" not in obs:
+            return "model: validation rejects (%s: %s -> %s); the real PreparedProject.create accepted" % (kind, test, dep)
+        cls, text = obs["resolve_error"]
+        want = RESOLVE_ERR.get(kind, kind) % {"test": test, "dep": dep}
+        if cls != "ValidationError" or text != want:
+            return "model: ValidationError(%r); real: %s(%r)" % (want, cls, text)
+        return None
+    if "resolve_error" in obs:
+        return "real validation raised %r; the model accepts" % (obs["resolve_error"],)
+    if [[p, ds] for p, ds in res["ok"]] != obs["resolved"]:
+        return "resolved dependencies differ: real %r, model %r" % (obs["resolved"], res["ok"])
+    return None
 
 
 class DeclStream(C.Stream):
     name = "decl"
     driver = "drivers/Expand.lean"
+    profile = "default"
+    oracles = ("C01",)
     quick_cases = 220
     quick_seconds = 18
     thorough_cases = 2200
@@ -665,59 +1358,54 @@ class DeclStream(C.Stream):
     corpus = CORPUS
 
     def gen(self, rng, i):
-        return gen_case(rng)
+        return gen_case(rng, self.profile)
 
     def impl(self, case):
         return run_case(case)
 
     def oracle(self, case, obs):
-        return oracle(case, obs)
+        out = []
+        if "C01" in self.oracles:
+            out += oracle(case, obs)
+        if "C04" in self.oracles:
+            out += oracle_c04(case, obs)
+        return out
 
     def request(self, case, obs):
-        return {"classes": model_classes(case["classes"]), "nb_threads": 2, "force": False}
+        return {"classes": model_classes(case["classes"], case.get("bases", [])), "nb_threads": 2, "force": False,
+                "keep": [p.split(".") for p in case["filter"]["paths"]] if case.get("filter") else None}
 
     def compare(self, case, obs, ans):
-        if "error" in ans:
-            return "model error: " + str(ans["error"])
+        d = compare_load(case, obs, ans)
+        if d is not None or "err" in ans.get("load", {}):
+            return d
         load = obs["load"]
-        if not ans["agree"]:
-            return "the loader model succeeded with another tree than the specification `expandSuites`"
-        if "err" in ans["load"]:
-            kind, arg = ans["load"]["err"]
-            want = ERR_MAP[kind]
-            if "error" not in load:
-                return "model: loader raises %s(%r); the real loader returned a tree" % (kind, arg)
-            cls, text = load["error"]
-            if cls != want[0] or (len(want) > 1 and not text.startswith(want[1])) or arg not in text:
-                return "model: loader raises %s(%r); real: %s(%s)" % (kind, arg, cls, text[:200])
-            return None
-        if "error" in load:
-            return "real loader raised %r; the model loads a tree" % (load["error"],)
-        real = strip_decl(load["tree"])
-        model = model_tree(ans["load"]["ok"])
-        if real != model:
-            return "loaded tree differs from the model's: " + _first_diff(real, model)
         # the run-level graph of the expanded tree has one test task per loaded test, in order
         paths = [p for p, _, _ in flat_tests(load["tree"])]
         if ans["tasks"] != paths:
             return "test tasks of the expanded project %r differ from the loaded tests %r" % (ans["tasks"], paths)
         if ans["count"] != len(paths):
             return "declCount %d differs from the number of loaded tests %d" % (ans["count"], len(paths))
+        d = compare_resolve(case, obs, ans)
+        if d is not None:
+            return d
         # the model's `testDisabledNow` (no force) agrees with what the run without --force-disabled reported
         for run in obs["runs"]:
             if run["force"] or "tests" not in run:
                 continue
             st = {".".join(p): s for p, s, _ in run["tests"]}
             for p, dn in ans["tests"]:
-                if (st.get(".".join(p)) == "disabled") != dn:
+                if ".".join(p) in st and (st.get(".".join(p)) == "disabled") != dn:
                     return "n=%d: %s reported %r, model testDisabledNow=%s" % (run["n"], ".".join(p), st.get(".".join(p)), dn)
         return None
 
     def nontrivial(self, case, obs):
-        if "tree" not in obs.get("load", {}) or not obs["runs"]:
+        if "tree" not in obs.get("load", {}):
             return False
         tests = list(flat_tests(obs["load"]["tree"]))
-        return len(tests) >= 2 and any(t["params"] for _, t, _ in tests) and any(r.get("executed") for r in obs["runs"])
+        if self.profile == "deps":
+            return len(tests) >= 2 and any(t["deps"] for _, t, _ in tests)
+        return len(tests) >= 2 and bool(obs["runs"]) and any(t["params"] for _, t, _ in tests) and any(r.get("executed") for r in obs["runs"])
 
     def features(self, case, obs):
         f = []
@@ -726,10 +1414,42 @@ class DeclStream(C.Stream):
             f.append("load-error=" + load["error"][0] + ("/" + " ".join(load["error"][1].split()[:4]) if load["error"][0] == "SuiteLoadingError" else ""))
         elif obs.get("empty"):
             f.append("no-test-at-all")
+        elif obs.get("filter_empty"):
+            f.append("filter-matches-nothing")
         elif "resolve_error" in obs:
-            f.append("resolve-error=" + obs["resolve_error"][0])
+            f.append("rejected=" + " ".join(obs["resolve_error"][1].split()[:3]))
         else:
             f.append("loaded+run")
+        if "tree" in load:
+            g = declared_graph(case, obs)
+            defects = graph_defects(g, scheduled_paths(case, obs))
+            f.append("graph=" + (defects[0][0] if defects else "fine"))
+            if defects and defects[0][0] == "cycle":
+                cyc = defects[0][2].split(" -> ")
+                f.append("cycle-length=%d" % (len(cyc) - 1))
+                # was the cycle first entered from a test outside it (resolution order = tree order)?
+                first = next((t for t in g if t in set(scheduled_paths(case, obs)) and _reaches(g, t, set(cyc))), None)
+                f.append("cycle-entered-from-" + ("outside" if first not in cyc else "a-member"))
+            n_edges = sum(len(v) for v in g.values())
+            f.append("edges=%s" % ("0" if not n_edges else "1-3" if n_edges <= 3 else "4-8" if n_edges <= 8 else "9+"))
+            idx = {t: i for i, t in enumerate(g)}
+            for t, items in g.items():
+                for kind, d in items:
+                    if kind == "ok":
+                        f.append("dep-forward" if idx.get(d, -1) > idx[t] else "dep-backward")
+                        if d.rsplit(".", 1)[0] != t.rsplit(".", 1)[0]:
+                            f.append("dep-cross-suite")
+                indeg = sum(1 for v in g.values() for _, d in v if d == t)
+                if indeg >= 2 and items:
+                    f.append("diamond-or-shared-dependency")
+        f.append("mode=" + case.get("mode", "dag"))
+        if case.get("twins"):
+            f.append("same-named-tests-in-different-suites")
+            if "tree" in load and any(len({d.rsplit(".", 1)[0] for k, d in items if k == "ok" and d.rsplit(".", 1)[1] == case["twins"]}) >= 2
+                                      for items in declared_graph(case, obs).values()):
+                f.append("depends-on-same-named-tests")
+        if case.get("filter"):
+            f.append("filter")
         nd = 0
         for d, cpath, dis, vis in iter_decls(case["classes"]):
             nd += 1
@@ -738,8 +1458,21 @@ class DeclStream(C.Stream):
                 f.append("disabled-decl" + ("+reason" if isinstance(d["disabled"], str) else ""))
             if d["hidden"]:
                 f.append("hidden-decl")
-            if d["deps"]:
+            groups = dep_groups(d)
+            if groups:
                 f.append("depends_on")
+                f.append("depends_on-decorators=%d" % len(groups))
+                if any(len(g) > 1 for g in groups):
+                    f.append("depends_on-multi-argument")
+                if len(groups) > 1 and any(len(g) > 1 for g in groups):
+                    f.append("depends_on-stacked+multi-argument")
+                for x in flat_deps(d):
+                    if not isinstance(x, str):
+                        f.append("depends_on-predicate/" + x["pred"].split("=")[0])
+            if d.get("split_tags"):
+                f.append("tags-stacked")
+            if d.get("behav", "pass") != "pass":
+                f.append("body-" + d["behav"])
             for k in ("tags", "props", "links"):
                 if d[k]:
                     f.append(k)
@@ -752,7 +1485,7 @@ class DeclStream(C.Stream):
                     f.append("disabled+parametrized")
                 if dis and not d["disabled"]:
                     f.append("parametrized-in-disabled-class")
-                if d["deps"]:
+                if groups:
                     f.append("parametrized+depends_on")
         for c in _iter_classes(case["classes"]):
             if c["disabled"]:
@@ -767,23 +1500,47 @@ class DeclStream(C.Stream):
 
     def shrink(self, case):
         cs = case["classes"]
+        rest = {k: v for k, v in case.items() if k != "classes"}
+        if case.get("filter"):
+            yield {k: v for k, v in case.items() if k != "filter"}
         # drop a class / a test / a sub-class, then simplify one declaration
         for i in range(len(cs)):
             if len(cs) > 1:
-                yield {"classes": cs[:i] + cs[i + 1:]}
+                yield dict(rest, classes=cs[:i] + cs[i + 1:])
         for path in _class_paths(cs):
             c = _get(cs, path)
             for i in range(len(c["tests"])):
-                yield {"classes": _edit(cs, path, lambda c, i=i: dict(c, tests=c["tests"][:i] + c["tests"][i + 1:]))}
+                yield dict(rest, classes=_edit(cs, path, lambda c, i=i: dict(c, tests=c["tests"][:i] + c["tests"][i + 1:])))
             for i in range(len(c["subs"])):
-                yield {"classes": _edit(cs, path, lambda c, i=i: dict(c, subs=c["subs"][:i] + c["subs"][i + 1:]))}
+                yield dict(rest, classes=_edit(cs, path, lambda c, i=i: dict(c, subs=c["subs"][:i] + c["subs"][i + 1:])))
             for i, t in enumerate(c["tests"]):
-                for k, v in (("deps", []), ("tags", []), ("props", []), ("links", []), ("name", None), ("hidden", False)):
-                    if t[k] != v:
-                        yield {"classes": _edit(cs, path, lambda c, i=i, k=k, v=v: dict(c, tests=c["tests"][:i] + [dict(c["tests"][i], **{k: v})] + c["tests"][i + 1:]))}
+                def put(t2, i=i):
+                    return dict(rest, classes=_edit(cs, path, lambda c: dict(c, tests=c["tests"][:i] + [t2] + c["tests"][i + 1:])))
+                groups = dep_groups(t)
+                if groups:
+                    yield put(dict({k: v for k, v in t.items() if k != "deps"}, dep_groups=[]))
+                    for gi, g in enumerate(groups):
+                        for di in range(len(g)):
+                            g2 = [x for j, x in enumerate(g) if j != di]
+                            ng = groups[:gi] + ([g2] if g2 else []) + groups[gi + 1:]
+                            yield put(dict({k: v for k, v in t.items() if k != "deps"}, dep_groups=ng))
+                for k, v in (("tags", []), ("props", []), ("links", []), ("name", None), ("hidden", False), ("behav", "pass"), ("disabled", False)):
+                    if t.get(k, v) != v:
+                        yield put(dict(t, **{k: v}))
                 if t["param"] is not None and len(t["param"]["sets"]) > 1:
-                    p = dict(t["param"], sets=t["param"]["sets"][:-1])
-                    yield {"classes": _edit(cs, path, lambda c, i=i, p=p: dict(c, tests=c["tests"][:i] + [dict(c["tests"][i], param=p)] + c["tests"][i + 1:]))}
+                    yield put(dict(t, param=dict(t["param"], sets=t["param"]["sets"][:-1])))
+                if t["param"] is not None:
+                    yield put(dict(t, param=None))
+
+
+def _reaches(g, t, targets, seen=None):
+    seen = seen if seen is not None else set()
+    if t in targets:
+        return True
+    if t in seen:
+        return False
+    seen.add(t)
+    return any(kind == "ok" and _reaches(g, d, targets, seen) for kind, d in g.get(t, []))
 
 
 def _iter_classes(classes):
